@@ -3,7 +3,9 @@ package explore
 import (
 	"encoding/json"
 	"fmt"
+	"os"
 	"runtime"
+	"strings"
 	"sort"
 	"sync"
 	"time"
@@ -19,6 +21,57 @@ type PartOpt struct {
 	Bound   string
 	Domain  string
 	Workers int // 0 = GOMAXPROCS
+	// Guard: before each case the worker records it in <GuardDir>/current-<w>.json so that the
+	// supervising parent process can attribute an os.Exit / fatal runtime error of the real code.
+	Guard bool
+}
+
+// GuardDir is set by the supervisor (main) for the child process; empty = no guarding.
+var GuardDir string
+
+func guardWrite(w int, part string, c any) {
+	if GuardDir == "" {
+		return
+	}
+	raw, _ := json.Marshal(c)
+	b, _ := json.Marshal(Violation{Part: part, Case: raw})
+	os.WriteFile(fmt.Sprintf("%s/current-%d.json", GuardDir, w), b, 0o644)
+}
+
+func guardClear(w int) {
+	if GuardDir != "" {
+		os.Remove(fmt.Sprintf("%s/current-%d.json", GuardDir, w))
+	}
+}
+
+// safely runs check and converts a Go panic inside the real code (or the harness) into a failure.
+func safely[C any, E any](check func(l *Local, env E, c C) *Fail, l *Local, env E, c C) (f *Fail) {
+	defer func() {
+		if p := recover(); p != nil {
+			f = &Fail{Sig: "panic: " + panicSite(), Msg: fmt.Sprintf("panic: %v", p)}
+		}
+	}()
+	return check(l, env, c)
+}
+
+// panicSite names the innermost non-runtime function on the panicking stack.
+func panicSite() string {
+	pcs := make([]uintptr, 32)
+	n := runtime.Callers(3, pcs)
+	frames := runtime.CallersFrames(pcs[:n])
+	for {
+		fr, more := frames.Next()
+		if fr.Function != "" && !strings.HasPrefix(fr.Function, "runtime.") {
+			fn := fr.Function
+			if i := strings.LastIndex(fn, "/"); i >= 0 {
+				fn = fn[i+1:]
+			}
+			return fn
+		}
+		if !more {
+			return "unknown"
+		}
+	}
 }
 
 // Product enumerates every case produced by gen (a complete finite product, sharded
@@ -32,7 +85,11 @@ func Product[C any, E any](r *Report, name string, opt PartOpt, gen func(yield f
 			return nil, err
 		}
 		l := &Local{outcomes: map[uint64]struct{}{}}
-		return check(l, newEnv(), c), nil
+		if opt.Guard {
+			guardWrite(0, name, c)
+			defer guardClear(0)
+		}
+		return safely(check, l, newEnv(), c), nil
 	}
 	if r == nil { // registration only (replay mode)
 		return
@@ -57,12 +114,15 @@ func Product[C any, E any](r *Report, name string, opt PartOpt, gen func(yield f
 		l := &Local{outcomes: map[uint64]struct{}{}}
 		locals[w] = l
 		wg.Add(1)
-		go func() {
+		go func(w int) {
 			defer wg.Done()
 			env := newEnv()
 			for batch := range ch {
 				for _, c := range batch {
-					f := check(l, env, c)
+					if opt.Guard {
+						guardWrite(w, name, c)
+					}
+					f := safely(check, l, env, c)
 					if f != nil {
 						fmu.Lock()
 						failCount[f.Sig]++
@@ -75,7 +135,10 @@ func Product[C any, E any](r *Report, name string, opt PartOpt, gen func(yield f
 					}
 				}
 			}
-		}()
+			if opt.Guard {
+				guardClear(w)
+			}
+		}(w)
 	}
 	var cases int64
 	batch := make([]C, 0, 64)
@@ -137,7 +200,7 @@ func Product[C any, E any](r *Report, name string, opt PartOpt, gen func(yield f
 		stable := true
 		for i := 0; i < 5; i++ {
 			l := &Local{outcomes: map[uint64]struct{}{}}
-			f2 := check(l, newEnv(), fc.c)
+			f2 := safely(check, l, newEnv(), fc.c)
 			if f2 == nil || f2.Sig != fc.f.Sig || f2.Msg != fc.f.Msg {
 				stable = false
 				r.HarnessError("part %s: failure %q not reproducible on re-execution (%v vs %v)", name, s, fc.f, f2)
